@@ -18,7 +18,7 @@ PROPS["C14"] = dict(
                 "returns Err whenever one was recorded. Code generator (cgen unit, real bodies): every emit call in compile_statement / compile_expression / compile_if_expression / compile_logical_and / compile_logical_or / "
                 "compile_function_literal / compile_match_expression / compile_filter_statement / emit_action_stmt / load_symbol / save_symbol / compile_index / compile_prop / compile_infix passes at least as many operands as its opcode encodes (emit's precondition, discharged at each call site), "
                 "patch_jump / change_operand are only applied to the start of a one-operand instruction, and the bytes they leave are the big-endian encoding of the new operand (lemma_patched_jump).",
-    not_covered=[                 "VM::run's fetch/dispatch loop header and tail (each of its 48 arms is verified: it decodes big-endian operands of exactly the encoder's widths and leaves ip on the last operand byte)"],
+    not_covered=[                 "VM::run's fetch/dispatch loop header and tail are pinned by a source scan (vmcore::scan[run-header / run-no-rebinding / run-tail]), not by a proof; each of its 48 arms is verified: it decodes big-endian operands of exactly the encoder's widths and leaves ip on the last operand byte"],
     assumptions=["lazy_static evaluates the DEFINITIONS initializer exactly once and DEFINITIONS.get is HashMap::get on it (R6)",
                  "byteorder::WriteBytesExt::write_u16::<BigEndian>/write_u8 append the big-endian bytes (shim contracts)",
                  "derived Hash/Eq of the field-less enum Opcode obey the HashMap key model"],
@@ -88,7 +88,7 @@ PROPS["C08"] = dict(
                 "helpers, call_func, call_builtin, push_closure, binary_op, bitwise_op are verified panic-free under the VM "
                 "representation invariant and preserve it (Verus); header parsers return Err on every truncated buffer. The index / map / $n helpers the arms call (vmindex unit, real bodies): exec_array_index indexes only inside the array, "
                 "exec_hash_index and build_map reject invalid keys with an error, exec_dollar_expr bounds the depth; get_inner (dollar unit) terminates for every depth and object.",
-    not_covered=["VM::run's loop header/tail and the facts each arm assumes from the compiler (operands index existing constants/locals/free variables; operands were pushed)",
+    not_covered=["VM::run's loop header/tail (source scan only) and the facts each arm assumes from the compiler (operands index existing constants/locals/free variables; operands were pushed; ip stays on instruction starts)",
                  "builtins other than the 23 pure ones and the I/O ones under contract (C11, C22): time, rand, sleep, exit, input, strerror, get_errno are exercised by the bounded stand-in only", "compile_* emission"],
     assumptions=["operands the compiler encodes (constant index, free count, argument count) are within the VM state they index (precondition of the helpers)",
                  "num_locals of a compiled function is below 2^32"],
@@ -125,7 +125,7 @@ PROPS["C13"] = dict(
                 "Compiler (cgen unit, real bodies): for a binary operator other than && / ||, a unary operator, an index, a call and a packet-property access, the last instruction compile_expression emits - the one that can fail at run time - "
                 "is the node's own opcode (infix_opcode / unary_opcode tables, Get/SetIndex, Call, Get/SetProp) and the line recorded at its opcode byte is the line of the node's own token (op_line / last_line_is).",
     not_covered=["lines of the comparison instructions generated for match patterns (they carry the pattern's or the arm's token line by construction; not stated as a postcondition)", "errors raised inside the 12 layer-getter arms of exec_prop_* (they return error OBJECTS, never runtime errors: pktcache) and inside builtins (call_builtin puts the line on them)",
-                 "that `line` passed to the arms is instructions.lines[ip] (one line of VM::run's loop header)"],
+                 "that `line` passed to the arms is instructions.lines[ip] is a source scan of VM::run's loop header (vmcore::scan[run-header], scan[run-no-rebinding]), not a proof"],
     assumptions=[],
     trusted=COMMON_TRUST,
 )
